@@ -150,18 +150,48 @@ func (s *Sim) access(p unsafe.Pointer, write bool, site string) {
 		sh.write = me
 		sh.hasWrite = true
 		sh.reads = sh.reads[:0]
+		s.stallAfterAccess(t, sh)
 		return
 	}
 	if sh.hasWrite && sh.write.task != t.id && sh.write.clock > t.vc.get(sh.write.task) {
 		s.reportRace("write-read", sh.write, me)
 	}
+	found := false
 	for i := range sh.reads {
 		if sh.reads[i].task == t.id {
 			sh.reads[i] = me
-			return
+			found = true
+			break
 		}
 	}
-	sh.reads = append(sh.reads, me)
+	if !found {
+		sh.reads = append(sh.reads, me)
+	}
+	s.stallAfterAccess(t, sh)
+}
+
+// stallAfterAccess: race-directed scheduling.  The access has been recorded;
+// with a drawn probability the task now sleeps for a drawn number of steps, so
+// that the other tasks run on without ever acquiring anything this task will
+// release later - which is what lets the vector clocks see a conflicting access
+// as unordered instead of incidentally ordered through a mutex.
+func (s *Sim) stallAfterAccess(t *task, sh *shadowVar) {
+	if s.cfg.AccessStall <= 0 || !sh.multi || len(s.tasks) < 2 {
+		return
+	}
+	k := s.draw(8, func() int {
+		if s.rng.float() < s.cfg.AccessStall {
+			return 1 + int(s.rng.next()%7)
+		}
+		return 0
+	})
+	if k == 0 {
+		return
+	}
+	s.probes["access_stalls"]++
+	t.stall = 1 << uint(k+1) // 4 .. 256 scheduling decisions
+	t.pend = op{kind: OpAccess}
+	s.yield(t)
 }
 
 // R records a read of *p by the running task and returns p.
